@@ -112,8 +112,12 @@ def ev_formula(ns, name):
                     own = own.ion[q]
                 if own is not a:
                     bad.append(str(a))
-    for s in FORMULAS:
-        f = pt.formula(s, table=T)
+    made = [pt.formula(s, table=T) for s in FORMULAS]
+    # the mixture constructors parse their string components with the same table= keyword
+    made.append(pt.mix_by_weight("H2O@1", 2, "D2O@1n", 1, table=T))
+    made.append(pt.mix_by_volume("H2O@1", 1, "Fe[56]{2+}2O3@5", 3, table=T))
+    made.append(pt.mix_by_volume(pt.formula("NaCl@2.16", table=T), 1, "D2O@1.1", 1, table=T))
+    for f in made:
         walk(f.structure)
         for a in f.atoms:
             el = a
